@@ -150,6 +150,7 @@ func runSites(dir string, seed uint64, tier string) error {
 	w := &gal.Writer{Dir: dir, Require: "From Apko Require Import Corr.C15.", Type: "site_case", Check: "check_site", Shard: 250}
 	r := gal.NewRand(seed)
 	const dl = 5 * time.Second
+	retryHang = 40 * time.Second
 	slog.SetDefault(slog.New(slog.NewTextHandler(io.Discard, nil))) // the code under test logs every index it does not find
 	ctx := context.Background()
 	scale := 1
@@ -694,6 +695,7 @@ func runSites(dir string, seed uint64, tier string) error {
 // childRepoLines: one repository line per case through the real GetRepositoryIndexes
 func childRepoLines(inFile, repoDir string, from int) {
 	slog.SetDefault(slog.New(slog.NewTextHandler(io.Discard, nil)))
+	retryHang = 40 * time.Second
 	b, err := os.ReadFile(inFile)
 	if err != nil {
 		os.Exit(3)
@@ -783,6 +785,7 @@ func runSiteChild(kind string, payloads []string) ([]siteObs, error) {
 // memfs; what comes back: the values recorded in lib/apk/db/triggers
 func childPkginfo(inFile string, from int) {
 	slog.SetDefault(slog.New(slog.NewTextHandler(io.Discard, nil)))
+	retryHang = 40 * time.Second
 	b, err := os.ReadFile(inFile)
 	if err != nil {
 		os.Exit(3)
